@@ -649,3 +649,26 @@ reg(P("C04", "format", "c04",
                                  "'all byte strings' is sampled, not exhausted, beyond the one-edit neighbourhoods"],
       sig_fn=_c04_sig, mutate=_c04_mutate, design_ref="DESIGN.md §6 C04",
       technique="grammar-aware mutation of streams, direct observation of crash / hang / allocation in a child process; the HproseFormat recogniser (TLC) labels each stream malformed or not and demands an error for malformed ones"))
+
+
+def _c07_mutate(rec):
+    if rec.get("ev") == "one" and rec.get("kind") == "rpc" and rec.get("sname") not in (None, "none"):
+        rec["sname"] = rec["sname"] + "x"
+        return rec
+    return None
+
+
+reg(P("C07", "format", "c07",
+      mc={"quick": [("FormatSelf", "FormatSelf.cfg", 600)], "thorough": [("FormatSelf", "FormatSelf.cfg", 1500)]},
+      traces=[("", "FormatTraceC07", "FormatTraceC07.cfg")],
+      level="model_checking",
+      rule="cases = 33 call shapes (0..5 arguments of struct / pointer / map / slice / interface / big / time types, the same "
+           "string or pointer repeated across arguments, header values and the method name, variadic tails, fewer and "
+           "more arguments than parameters, upper / mixed case and non-ASCII names, 0 / 1 / several results incl. shared "
+           "ones and fewer than declared, error / panic error / non-ASCII error) x Simple on either side x 4 sets of "
+           "LongType / RealType / MapType / StructType / ListType / Debug options per side; every case is non-trivial",
+      assumptions=_FMT_ASSUME + ["the JSON-RPC codec is not covered by this check"],
+      sig_fn=lambda reset, event: {"label": reset.get("label"), "csimple": reset.get("csimple"), "ssimple": reset.get("ssimple"),
+                                   "types": (reset.get("opts") or {}).get("types")},
+      mutate=_c07_mutate, design_ref="DESIGN.md §6 C07",
+      technique="TLC recognises the real request and response bytes segment by segment (RpcCodec.tla: reference scopes, simple header) and compares what each codec decoded with what the other side passed"))
